@@ -17,6 +17,7 @@ NEXT = "jxl_jbr::reconstruct::JpegBitstreamReconstructor::<'_, '_, '_>::process_
 
 # (function, reject condition, min occurrences, why)
 TABLE = [
+    ("<jxl_jbr::AppMarker as jxl_oxide_common::Bundle>::parse", "ty > 3", 1, "APP marker type beyond the four defined ones (unreachable!() in the replay, D22)"),
     ("<jxl_jbr::AppMarker as jxl_oxide_common::Bundle>::parse", "length < min_length", 1,
      "typed APP marker shorter than its fixed header (length - header underflows)"),
     ("<jxl_jbr::ScanMoreInfo as jxl_oxide_common::Bundle>::parse::{closure#0}", "block_idx > 201326592", 1, "reset point block index bound"),
